@@ -20,7 +20,7 @@ RULE = (
     "(RefEval levels), no output of the failing node or of anything downstream of it, and no value different from the "
     "fault-free evaluation; same-step siblings may or may not be present. Non-trivial: the failing node has >= 1 "
     "upstream or downstream node; distinct = (program shape, failing node position, mode)."
-    ' A third of the programs have outputs that cannot be copied or pickled (UTerm); exception classes include falsy objects (__bool__ False, __len__ 0); the classes are used in turn for the map cases.'
+    ' A third of the programs have outputs that cannot be copied or pickled (UTerm); exception classes include falsy objects (__bool__ False, __len__ 0) and one whose __str__ itself raises; the classes are used in turn for the map cases.'
 )
 ASSUMPTIONS = [
     "programs have no fallback on upstream-fed parameters here, so each node runs in exactly one step (levels are exact)",
@@ -58,7 +58,14 @@ class BoomEmptyLen(Exception):
         return 0
 
 
-EXC_KINDS = ["Boom", "BoomValue", "BoomKey", "BoomRuntime", "BoomValue-empty", "Assertion-empty", "Boom", "BoomFalsy", "BoomEmptyLen"]
+class BoomNoStr(Exception):
+    """An exception whose own __str__ fails (a message template over an attribute that was never set)."""
+
+    def __str__(self):
+        return "failed on item %d" % self.args[0]  # args[0] is a str: TypeError
+
+
+EXC_KINDS = ["Boom", "BoomValue", "BoomKey", "BoomRuntime", "BoomValue-empty", "Assertion-empty", "Boom", "BoomFalsy", "BoomEmptyLen", "BoomNoStr"]
 
 
 def make_exc(kind, msg):
@@ -77,6 +84,8 @@ def make_exc(kind, msg):
         return BoomFalsy(msg)
     if kind == "BoomEmptyLen":
         return BoomEmptyLen(msg)
+    if kind == "BoomNoStr":
+        return BoomNoStr(msg)
     return Boom(msg)
 
 
